@@ -317,7 +317,7 @@ __CPROVER_frees(ctl)
 __CPROVER_ensures(xv_errno == __CPROVER_old(xv_errno))
 __CPROVER_ensures(ctl != NULL ==> __CPROVER_was_freed(ctl))
 /* every descriptor of the control interface is closed: one per session and the listening one */
-/* PO[C14] ctl_destroy.descriptors_closed */
+/* PO[C14,C08] ctl_destroy.descriptors_closed */
 __CPROVER_ensures(ctl != NULL ==> (xv_ctl_close_calls == __CPROVER_old(xv_ctl_close_calls) + (unsigned long)__CPROVER_old(CTL_NUM(ctl)) + 1 && CTL_FOREIGN0))
 /* PO[C14] ctl_destroy.control_file_removed_by_owner_only */
 __CPROVER_ensures((ctl != NULL && owner && xv_ctl_gsn_ok) \
